@@ -76,7 +76,11 @@ def build_state(c):
         instr.append(pq.PostSelectPhotons(photon_counts=tuple(counts)).on_modes(*modes))
     cfg = pq.Config(cutoff=c["cutoff"]) if c.get("cutoff") is not None else pq.Config()
     sim = pq.PassiveSimulator(d=d, config=cfg)
-    return sim.execute(pq.Program(instructions=instr)).state
+    st = sim.execute(pq.Program(instructions=instr)).state
+    # state-level post-selection calls (active numbering), as particle_number_measurement makes them
+    for modes, counts in c.get("ps_state", []):
+        st = st._copy_with_postselection(tuple(modes), tuple(counts))
+    return st
 
 
 def run_case(c):
